@@ -237,6 +237,12 @@ def harness(extra=None, call=None, model=None, count=200, cls="odict"):
         return env
 
     def check(env, nr, outcome, result, exc):
+        try:
+            return _check(env, nr, outcome, result, exc)
+        except Exception as ex:            # e.g. a key list that names a key the map does not hold
+            return ["reference model: the object cannot be read back (%r)" % (ex,)]
+
+    def _check(env, nr, outcome, result, exc):
         if model is None:
             return []
         keys, store = list(env["_snap"][0]), dict(env["_snap"][1])
@@ -793,6 +799,10 @@ def _variant(E, fv, env, c):
         for v in E.reg.contracts[(fv.rel, fv.qual)]:
             if v.verify and isinstance(v.params.get("self"), Ty) and v.params["self"].name == rcv.cls:
                 return v
+    if fv.qual == "odict.popitem" and "last" in env:
+        for v in E.reg.contracts[(fv.rel, fv.qual)]:
+            if v.verify and "last" in v.params:
+                return v          # the variant that knows the `last` parameter (LIFO / FIFO)
     if fv.qual == "odict.pop":
         want = bool(env.get("default"))
         pick = None
@@ -817,3 +827,57 @@ contract(F, "odict.pop", "C39", params=dict(P, key=K), requires=["inv(self)"], m
                   "result == old(self[key])", "removed_at(self._keys, old_keys(self), old_pos(self, key))"],
          raises={"KeyError": ["old(key not in self)", UNCHANGED, "inv(self)"]}, returns=RET["vt"],
          note="called without a default; KeyError leaves inv(self) as well")
+
+
+# ------------------------------------------------------------------------------------------- native harness for the
+# contracts of contracts/c39_odict.py (added from here: the clauses there are unchanged; their spec functions that
+# read the entry state implicitly have no native twin, the reference model below is what is compared natively)
+OD.clampidx.native = lambda i, n: (max(0, n + i) if i < 0 else min(i, n))
+
+
+def _m_basic(meth):
+    def model(ks, st, env):
+        k = env.get("key")
+        if meth == "__setitem__":
+            return ks + ([] if k in st else [k]), dict(st, **{k: env["val"]}), None
+        if meth in ("__delitem__", "pop"):
+            if k not in st:
+                return (ks, st, env["default"][0]) if env.get("default") else (ks, st, KeyError)
+            st = dict(st)
+            v = st.pop(k)
+            return [x for x in ks if x != k], st, (v if meth == "pop" else None)
+        if meth == "append":
+            return (ks, st, KeyError) if k in st else (ks + [k], dict(st, **{k: env["item"]}), None)
+        if meth == "insert":
+            if k in st:
+                return ks, st, KeyError
+            ks = list(ks)
+            ks.insert(env["index"], k)
+            return ks, dict(st, **{k: env["val"]}), None
+        if meth == "clear":
+            return [], {}, None
+        if meth == "keys":
+            return ks, st, list(ks)
+        if meth == "popitem":
+            if not ks:
+                return ks, st, KeyError
+            st = dict(st)
+            return ks[:-1], st, (ks[-1], st.pop(ks[-1]))
+    return model
+
+
+_BASIC_X = {"__setitem__": lambda rng, mod: {"key": rng.choice(NKEYS), "val": rng.randint(10, 19)},
+            "__delitem__": lambda rng, mod: {"key": rng.choice(NKEYS)},
+            "append": lambda rng, mod: {"key": rng.choice(NKEYS), "item": rng.randint(10, 19)},
+            "insert": lambda rng, mod: {"index": rng.randint(-6, 6), "key": rng.choice(NKEYS), "val": rng.randint(10, 19)},
+            "clear": None, "keys": None, "popitem": None}
+for _m, _x in _BASIC_X.items():
+    for _c in REG.contracts.get((F, "odict." + _m), []):
+        if _c.replay is None and _c.verify and _c.params.get("self") is P["self"] and "last" not in _c.params:
+            _c.replay = harness(extra=_x, model=_m_basic(_m))
+for _c in REG.contracts.get((F, "odict.pop"), []):
+    if _c.replay is None and _c.verify:
+        _dflt = bool(_c.params.get("default"))
+        _c.replay = harness(extra=(lambda rng, mod, d=_dflt: dict({"key": rng.choice(NKEYS)}, **({"default": (-1,)} if d else {}))),
+                            call=lambda env, nr: type(env["self"]).pop(env["self"], env["key"], *env.get("default", ())),
+                            model=_m_basic("pop"))
